@@ -309,9 +309,11 @@ func doProgram(out *vlib.Out, p *gen.Program, lines []string, st *stats, seed ui
 	for i, l := range lines {
 		ls[i] = gen.CoqBytes(l)
 	}
-	if flag == "" && !p.HasIncValue {
-		out.Add(vlib.App("CRef", vlib.N(id), core.Coq(), gen.CoqBytes(fileName), vlib.List(ls), tablesCoq(lib.Log),
-			vlib.List(errs), obsCoq(rc.Final)), rc, nontriv)
+	if flag == "" {
+		// ONE case per program: the surface tree (decorators not inlined); the Coq
+		// side inlines it (Lang/Expand.v) and runs both ties on the result
+		out.Add(vlib.App("CSurf", vlib.N(id), p.SurfaceCoq(), gen.CoqBytes(fileName), vlib.List(ls), tablesCoq(lib.Log),
+			vlib.List(errs), obsCoq(rc.Final), objCoq(obj)), rc, nontriv)
 	} else {
 		// a flagged stream exercises a construct on which the implementation is
 		// known to leave the reference: judged by the oracle above only
@@ -326,9 +328,7 @@ func doProgram(out *vlib.Out, p *gen.Program, lines []string, st *stats, seed ui
 		out.Count("outcome/" + strings.SplitN(o, ":", 2)[0])
 	}
 	// tie (1): model codegen of the checker's AST vs the real bytecode
-	if flag == "" && !p.HasIncValue {
-		dumpCase(out, core, obj, rc)
-	}
+	_ = dumpCase
 }
 
 func firstLine(s string) string { return strings.SplitN(s, "\n", 2)[0] }
